@@ -63,8 +63,13 @@ def check_build(ctx, case):
     cdict = {"holder": holder, "year": year, "prefix": prefix, "wrap": wrapk, "already": already, "prefix2": prefix2}
     if already:
         statement = V.notice(prefix2, year, holder)
+        exp_prefix = V.PREFIXES[prefix2]
+        if prefix2.startswith("spdx") and len(holder) % 3 == 0:
+            # the snippet tag is a notice as well (with the same decorations)
+            statement = statement.replace("SPDX-FileCopyrightText:", "SPDX-SnippetCopyrightText:", 1)
+            exp_prefix = exp_prefix.replace("SPDX-FileCopyrightText:", "SPDX-SnippetCopyrightText:", 1)
         expected = statement  # kept verbatim
-        exp_prefix, exp_year = V.PREFIXES[prefix2], year
+        exp_year = year
         line = make_copyright_line(statement, year="1999", copyright_prefix=prefix)
     else:
         expected = V.notice(prefix, year, holder)
